@@ -2,7 +2,7 @@
     Only statements, each closed by [exact <lemma>] (or a short wrapper), with [Print Assumptions]. *)
 From Coq Require Import List ZArith NArith Bool Lia.
 From DH Require Import Lib.CheckLib Model.Store Model.FeedSpec Model.Keys Proofs.StoreProofs Proofs.C01Proofs
-     Proofs.KeysProofs Check.StoreCheck.
+     Proofs.KeysProofs Check.StoreCheck Proofs.C01CheckProofs.
 Import ListNotations.
 Open Scope Z_scope.
 
@@ -101,6 +101,14 @@ Example C01_key_example :
   raw_family_ok 8 [enc (lkey 2 5); enc (lkey 2 7); enc (lkey 3 1)] = true
   /\ lex_ltb (enc (vkey 7 2 1790794029996498142 0)) (enc (vkey 7 2 1790794029996498142 1)) = true.
 Proof. vm_compute. split; reflexivity. Qed.
+
+(** tie to the correspondence check: on well-formed cases agreement with the fully repaired model (repaired store
+    flags, lookup returning a deleted last version with its body) implies the executable spec of C01 evaluated on
+    the implementation's own observations (listings: id-sorted latest view; lookups: the partials of the spec) *)
+Theorem C01_agree_implies_spec : forall c,
+  Forall wf_sop01 c -> agree v_fixed true proj_c01 c = true -> spec_ok proj_c01 c = true.
+Proof. exact agree_implies_spec_c01. Qed.
+Print Assumptions C01_agree_implies_spec.
 
 (** non-vacuity *)
 Example C01_nonvacuous :
